@@ -243,6 +243,64 @@ fn run_nl(chunked: bool, a: &[&str]) -> Option<String> {
     })
 }
 
+fn int_chunk(rows: &[Row], ncols: usize) -> DataChunk {
+    let cols: Vec<ValueVector> = (0..ncols)
+        .map(|c| {
+            let mut v = ValueVector::with_capacity(LogicalType::Int64, rows.len());
+            for r in rows {
+                v.push_value(r[c].clone());
+            }
+            v
+        })
+        .collect();
+    DataChunk::new(cols)
+}
+
+fn int_mock(rows: &[Row], sizes: &[usize], ncols: usize) -> Box<dyn Operator> {
+    let mut out = Vec::new();
+    let mut pos = 0;
+    for &n in sizes {
+        let end = (pos + n).min(rows.len());
+        out.push(Some(int_chunk(&rows[pos..end], ncols)));
+        pos = end;
+    }
+    if pos < rows.len() {
+        out.push(Some(int_chunk(&rows[pos..], ncols)));
+    }
+    Box::new(Mock { chunks: out, pos: 0 })
+}
+
+/// join lf <ncols> <keys> <sizes/sizes/…> <table> <table> …   (Int64 / NULL cells only)
+fn run_lf(chunked: bool, a: &[&str]) -> Option<String> {
+    if a.len() < 4 || a.len() > 7 {
+        return None;
+    }
+    let ncols: usize = a[0].parse().ok()?;
+    if ncols == 0 || ncols > 8 {
+        return None;
+    }
+    let keys = parse_keys(a[1])?;
+    if keys.iter().any(|k| *k >= ncols) {
+        return None;
+    }
+    let sizes: Vec<Vec<usize>> = a[2].split('/').map(parse_sizes).collect::<Option<_>>()?;
+    let tables: Vec<Vec<Row>> = a[3..].iter().map(|t| parse_table(t, ncols)).collect::<Option<_>>()?;
+    if sizes.len() != tables.len() {
+        return None;
+    }
+    if tables.iter().flatten().flatten().any(|v| !matches!(v, Value::Int64(_) | Value::Null)) {
+        return None;
+    }
+    let k = tables.len();
+    let inputs: Vec<Box<dyn Operator>> = (0..k).map(|i| int_mock(&tables[i], &sizes[i], ncols)).collect();
+    let mapping: Vec<(usize, usize)> = (0..k).flat_map(|i| (0..ncols).map(move |c| (i, c))).collect();
+    let op = ops::LeapfrogJoinOperator::new(inputs, vec![keys; k], vec![LogicalType::Int64; k * ncols], mapping);
+    Some(match drain(Box::new(op)) {
+        Ok(cs) => if chunked { show_chunks(&cs) } else { show_bag(&cs) },
+        Err(e) => e,
+    })
+}
+
 fn run_key(a: &str, b: &str) -> Option<String> {
     if !valid_tok(a) || !valid_tok(b) {
         return None;
@@ -276,6 +334,8 @@ pub fn run(toks: &[&str]) -> String {
             ["nl", rest @ ..] if rest.len() == 8 => run_nl(false, rest),
             ["nl.c", rest @ ..] if rest.len() == 8 => run_nl(true, rest),
             ["key", x, y] => run_key(x, y),
+            ["lf", rest @ ..] => run_lf(false, rest),
+            ["lf.c", rest @ ..] => run_lf(true, rest),
             _ => None,
         };
         r.unwrap_or_else(|| "bad-op".to_string())
@@ -375,7 +435,7 @@ pub fn generate(seed: u64, cases: usize, out: &mut Vec<String>) {
     }
     for case in 1..=cases {
         out.push(format!("# case {} seed {}", case, seed));
-        let kind = rng.below(20);
+        let kind = rng.below(24);
         if kind < 12 {
             // hash join, small tables
             let nkeys = if rng.chance(1, 4) { 2 } else if rng.chance(1, 12) { 0 } else { 1 } as usize;
@@ -421,9 +481,34 @@ pub fn generate(seed: u64, cases: usize, out: &mut Vec<String>) {
             out.push(format!("join hash {}", args));
             out.push(format!("join hash.c {}", args));
             *dist.entry(format!("hash-big {}", jt)).or_default() += 1;
+        } else if kind >= 20 {
+            // leapfrog: 2 or 3 inputs, 1..3 key columns, Int64 / NULL cells
+            let k = rng.range(2, 3) as usize;
+            let nkeys = *rng.pick(&[1usize, 1, 1, 2, 2, 3]);
+            let mut tabs = Vec::new();
+            let mut szs = Vec::new();
+            for _ in 0..k {
+                let nrows = rng.range(0, 6) as usize;
+                let mut segs = Vec::new();
+                let mut total = 0;
+                for _ in 0..nrows {
+                    let mut cells: Vec<String> = (0..nkeys).map(|_| (*rng.pick(&["I0", "I1", "I1", "I2", "I2", "I3", "I-1", "N"])).to_string()).collect();
+                    cells.push("#".into());
+                    let n = if rng.chance(1, 6) { rng.range(2, 3) as usize } else { 1 };
+                    total += n;
+                    segs.push(if n > 1 { format!("{}*{}", cells.join(","), n) } else { cells.join(",") });
+                }
+                tabs.push(if segs.is_empty() { "-".to_string() } else { segs.join(";") });
+                szs.push(gen_sizes(&mut rng, total));
+            }
+            let keys: Vec<usize> = (0..nkeys).collect();
+            let args = format!("{} {} {} {}", nkeys + 1, list_arg(&keys), szs.join("/"), tabs.join(" "));
+            out.push(format!("join lf {}", args));
+            out.push(format!("join lf.c {}", args));
+            *dist.entry(format!("lf in{} k{}", k, nkeys)).or_default() += 1;
         } else {
             let jt = *rng.pick(&["inner", "left", "cross"]);
-            let (l, r) = *rng.pick(&[(2049usize, 2usize), (2, 2049), (50, 50), (2048, 1), (1, 2048), (2047, 3)]);
+            let (l, r) = *rng.pick(&[(2049usize, 2usize), (2, 2049), (50, 50), (2048, 1), (1, 2048), (2047, 3), (3, 1000), (2049, 1)]);
             let lt = format!("I1,#*{};N,#;I2,#*3", l);
             let rt = format!("I3,#;I1,#*{};N,#", r);
             let cond = if jt == "cross" { "x" } else { "e0.0" };
@@ -475,5 +560,26 @@ const BOUNDARY: &[&str] = &[
     "join nl.c inner 2 2 e0.0 c: c: I1,#*2 I1,#*1024",
     "join nl.c left 2 2 e0.0 c: c: I9,#*2049;I1,# I1,#*2",
     "join nl anti 2 2 e0.0 c: c: I1,#;I2,# -",
+    // output larger than 2048 rows, the operator resumes in the middle of a left row
+    "join nl cross 2 2 x c: c: I1,#*50 I1,#*50",
+    "join nl.c cross 2 2 x c: c: I1,#*50 I1,#*50",
+    "join nl.c cross 2 2 x c:7,7 c:20,20 I1,#*50 I1,#*50",
+    "join nl inner 2 2 e0.0 c: c: I1,#*3 I1,#*1000",
+    "join nl.c inner 2 2 e0.0 c: c:999 I1,#*3 I1,#*1000",
+    "join nl.c left 2 2 e0.0 c:1 c: I1,#*3;I4,# I1,#*1000;I5,#",
+    "join nl inner 2 2 e0.0 c: c: I1,#*2049 I1,#",
+    "join nl.c inner 2 2 e0.0 c:2048 c: I1,#*2049 I1,#",
+    "join nl.c cross 2 2 x c: c: I1,#*2049 I1,#*2",
+    "join nl.c inner 2 2 e0.0 c: c: I1,#*2 I1,#*2049",
+    "join lf 2 0 c:/c: I1,#;I2,#;I3,# I2,#;I3,#;I4,#",
+    "join lf.c 2 0 c:1/c:0,1 I2,#*2;I1,#;N,# I2,#*3;I9,#;N,#",
+    "join lf 2 0 c:/c:/c: I1,#;I2,# I2,#;I1,# I2,#;I5,#",
+    "join lf 3 0,1 c:/c: I1,I1,#;I1,I2,# I1,I1,#;I1,I3,#",
+    "join lf.c 3 0,1 c:/c: I1,I7,#;I1,I2,#;I1,I7,# I1,I1,#",
+    "join lf 4 0,1,2 c:/c: I1,I1,I1,# I1,I1,I1,#",
+    "join lf 2 0 c:/c: I-1,#;I1,# I1,#;I-1,#",
+    "join lf.c 2 0 c:/c: I1,#*50 I1,#*50",
+    "join lf 2 - c:/c: I1,# I1,#",
+    "join lf 2 0 c:/c: - I1,#",
     "join nl semi 2 2 e0.0 c: c: I1,#;I2,# I1,#*2",
 ];
